@@ -131,7 +131,8 @@ EXTRA = {
          " Round 2 adds PrinterOut.tla (879 k states at length 3, every behaviour replayed), list length 3 with a separator list that is one short (the default separator is owed), and compositionality over all ordered pairs of kinds."),
  "C16": ("; generated and byte-diverse (non-UTF-8) programs; the command line tool's -d over a directory", ""),
  "C17": ("; deeply nested programs; negative and non-decimal string offsets", " Two formatter defects found in round 2 are repaired (2ccad06, 12eb6e8); five known findings remain."),
- "C18": ("; runs of 40 000 requests over 17 block sizes (powers of two and not)", ""),
+ "C18": ("; runs of 40 000 requests over 17 block sizes (powers of two and not); TLAPS proof (PoolProof.tla, block size symbolic) that Get never returns a handle twice",
+         " Round 2 adds PoolProof.tla: the allocator's arithmetic with Size a symbolic constant >= 1; tlapm proves (34 obligations) that the cursor invariant is inductive and that the handle returned by Get is not among those returned before - the unbounded counterpart of the TLC runs."),
 }
 for k, (t1, t2) in EXTRA.items():
     CLAIMED[k]["technique"] += t1
